@@ -129,8 +129,15 @@ def sym_groups(tier, seed):
                     calls.append(layout_call(sz, "tocm", "t", s)); calls.append(layout_call(sz, "torm", "t", s))
                     calls.append(layout_call(sz, rng.choice(["rtcr", "rtrc", "ptrcm"]), "m", s))
                 calls += [layout_call(sz, "tocm", "t", (2, 3, 2, 2, 2, 2)), layout_call(sz, "torm", "t", (3, 1, 2, 2, 1, 3))]
-                for s in rng.sample([x for x in shapes if prod(x) <= 64], 14 if quick else 100):
-                    calls.append(ilist_call(sz, s))
+                # nested lists and buffer constructors stratified by rank (non-square rank 2 included for every constructor)
+                for r, k in ((1, 3), (2, 6), (3, 5), (4, 4)) if quick else ((1, 4), (2, 16), (3, 40), (4, 40)):
+                    cand = [x for x in shapes if len(x) == r and prod(x) <= 64 and (r != 2 or x[0] != x[1] or rng.random() < 0.2)]
+                    for s in rng.sample(cand, min(k, len(cand))):
+                        calls.append(ilist_call(sz, s))
+                for fn in ("ptrcm", "arrcm", "veccm", "ptrrm", "arrrm", "vecrm"):
+                    calls.append(layout_call(sz, fn, "m", rng.choice([(2, 3), (3, 2), (4, 3), (1, 4), (3, 4)])))
+                    calls.append(layout_call(sz, fn, "m", rng.choice([(2, 3, 4), (4, 1, 3), (3, 2, 2)])))
+                    calls.append(layout_call(sz, fn, "m", (rng.randint(2, 4),)))
                 for ch in symrun.chunk(calls, 70):
                     groups.append({"key": "%s/sz%d/layout" % (isa, sz), "header": "map_sym.h", "isa": isa, "calls": ch})
                 calls = []
